@@ -4,7 +4,7 @@
 From Coq Require Import Reals List ZArith Bool Lia.
 From Flocq Require Import Core.
 From Interval Require Import Xreal Interval.
-From CPL Require Import Model.Base Model.BienExact Model.Bien Proofs.BienProofs Corr.C18.
+From CPL Require Import Model.Base Model.BienExact Model.Bien Proofs.BienProofs Model.BienLong Proofs.BienLongProofs Corr.C18.
 Import ListNotations.
 Local Open Scope R_scope.
 
@@ -12,7 +12,11 @@ Definition value (f : fn) (s : list bool) : R :=
   match f with FBien => bien s | FTbien => tbien s | FKtbien => ktbien s end.
 
 Lemma enclosure_ok f s : bien_guard s -> contains (I.convert (enclosure f s)) (Xreal (value f s)).
-Proof. intros Hn. destruct f; cbn [enclosure value]; [apply bienI_ok|apply tbienI_ok|apply ktbienI_ok]; exact Hn. Qed.
+Proof.
+  intros Hn. unfold enclosure. destruct (length s <=? 301)%nat.
+  - destruct f; cbn [value]; [apply bienI_ok|apply tbienI_ok|apply ktbienI_ok]; exact Hn.
+  - destruct f; cbn [value]; [apply bienIL_ok|apply tbienIL_ok|apply ktbienIL_ok]; exact Hn.
+Qed.
 
 Theorem check_case_value_sound f s m e : check_case (CValue f s (Ok (m, e))) = true ->
   (2 <= length s)%nat /\ Rabs (value f s - IZR m * bpow radix2 e) <= / 2 ^ 30.
